@@ -99,6 +99,7 @@ func runC05(c *core.Ctx) {
 	c.Rule("R5.3", "a hit is constructed only on paths that compared the number of chunk replies with the metadata's chunk count and took the equal side", 3)
 	c.Rule("R5.4", "every chunk reply that is counted was read without error and had its token compared in the same iteration, or no hit is reachable afterwards: a skipped comparison or a failed read leaves bytes in the value that the token check never covered", 3)
 
+	c.Rule("R5.7", "the value a hit hands out is the buffer the chunk replies of that read were assembled in", 2)
 	c.Rule("R5.5", "the token a caller compares is the token of the reply just read: in the reply-read helper every path to the read of a chunk's data passes the read of that chunk's token into the caller's token buffer (unless the caller passed none)", 3)
 	helper := replyHelper(c)
 	if helper == nil {
@@ -211,6 +212,43 @@ func checkReplyLoop(c *core.Ctx, fn, helper *ssa.Function) {
 			}
 		}
 		return false, ""
+	}
+	// R5.7: what a hit hands out is the buffer the chunk replies were read into
+	{
+		n7 := 0
+		var bad7 []string
+		ssax.Instrs(fn, func(ins ssa.Instruction) {
+			var resp ssa.Value
+			switch x := ins.(type) {
+			case *ssa.Send:
+				resp = x.X
+			case *ssa.Return:
+				if len(x.Results) > 0 {
+					resp = x.Results[0]
+				}
+			}
+			if resp == nil || !strings.HasSuffix(types.TypeString(resp.Type(), nil), "Response") {
+				return
+			}
+			if hit, what := isHit(ins); !hit || strings.HasPrefix(what, "assembled") {
+				return
+			}
+			n7++
+			for _, s := range (&ssax.Prov{}).Sources(resp, "Data") {
+				isData := false
+				for _, db := range dataBufs {
+					if s.V == db {
+						isData = true
+					}
+				}
+				if !isData {
+					bad7 = append(bad7, "the hit at "+c.P.Pos(ins.Pos())+" hands out "+s.String()+", not the buffer the chunks were read into")
+				}
+			}
+		})
+		if n7 > 0 {
+			c.Check(len(bad7) == 0, "R5.7", key+"#hit-data", c.P.Pos(hcall.Pos()), "the hit hands out the buffer the chunk replies were read into", strings.Join(uniq(bad7), "; "))
+		}
 	}
 	isMetaFetch := func(ins ssa.Instruction) bool {
 		cc := ssax.CallOf(ins)
